@@ -9,12 +9,13 @@
   Shared manager dict (model: GFO.Model.Shared, all interleavings): the cache invariant is inductive over every
   schedule, every value a process reads is the objective's value, keys only grow, and the final dict is the initial
   one plus every key some process wrote (`shared_*`). Two processes may both miss and both evaluate - stated, not hidden.
-  `memory_transparent_partial`: rows and scores of the memory-on and the memory-off run are the same FUNCTION of the
-  emitted positions; that the emitted positions coincide as well is established per run by the correspondence harness
-  (paired runs), not by a theorem - see DESIGN.md.
+  `memory_transparent`: a full simulation theorem - for every backend, deterministic objective and well-formed space the
+  call with memory=True and the call with memory=False (same prior state, `max_time` not set: a cache hit takes no time)
+  fail alike or produce the same rows, positions, scores, backend state and best result.
 -/
 import GFO.Props.C04
 import GFO.Model.Shared
+import GFO.Proofs.Transparent
 namespace GFO.C06
 open GFO GFO.C04
 variable {σ : Type}
@@ -66,6 +67,57 @@ theorem memory_transparent_partial {b : Backend σ} {sp : Space} {obj : Obj} {od
   obtain ⟨a1, a2⟩ := memory_returns_original hwf hdet h1 hn1 hm1
   obtain ⟨b1, b2⟩ := memory_returns_original hwf hdet h2 hn2 hm2
   exact ⟨by rw [a1, b1, hpos], by rw [a2, b2, hpos]⟩
+
+/-- C06, transparency: `search_data` and the best result are identical to the `memory=False` run -/
+theorem memory_transparent {b : Backend σ} {sp : Space} {obj : Obj} {od : Value → Res} (c : Call) (d : DState σ)
+    (hwf : sp.WF) (hdet : Det obj od) (hmt : c.maxTime = none) :
+    (∃ e, searchCall b sp obj (memOn c) d = .error e ∧ searchCall b sp obj (memOff c) d = .error e) ∨
+    (∃ d1 r1 d2 r2, searchCall b sp obj (memOn c) d = .ok (d1, r1) ∧ searchCall b sp obj (memOff c) d = .ok (d2, r2) ∧
+      d1.rows = d2.rows ∧ d1.posL = d2.posL ∧ d1.scoreL = d2.scoreL ∧ d1.bst = d2.bst ∧
+      d1.nInitTotal = d2.nInitTotal ∧ d1.nIterTotal = d2.nIterTotal ∧
+      r1.steps = r2.steps ∧ r1.bestScore = r2.bestScore ∧ r1.bestPos = r2.bestPos ∧ r1.bestValue = r2.bestValue ∧
+      r1.bestPara = r2.bestPara) := by
+  unfold searchCall
+  simp only [bind, Except.bind]
+  -- both calls start from the same call state with an empty dictionary
+  let cs0 : CState :=
+    { stop := { startTime := d.clock, maxTime := c.maxTime, maxScore := c.maxScore, early := c.early }
+      mem := []
+      nInitsNorm := min (d.nInits - d.nInitTotal) c.nIter }
+  have hinit1 : initSearch sp (memOn c) d = .ok cs0 := by
+    simp [initSearch, initMemory, memOn, bind, Except.bind, pure, Except.pure, cs0]
+  have hinit2 : initSearch sp (memOff c) d = .ok cs0 := by
+    simp [initSearch, initMemory, memOff, bind, Except.bind, pure, Except.pure, cs0]
+  rw [hinit1, hinit2]
+  simp only
+  have S0 : Sim od sp d d cs0 cs0 := { d := rfl, cs := rfl, ok := MemOk.nil od sp }
+  have hmt0 : cs0.stop.maxTime = none := hmt
+  have hn : (memOn c).nIter = (memOff c).nIter := rfl
+  rcases searchLoop_sim (b := b) (c := c) hwf hdet c.nIter 0 d d cs0 cs0 S0 hmt0 with ⟨e, h1, h2⟩ | ⟨d1', cs1', d2', cs2', k, h1, h2, S1⟩
+  · left
+    have h1' : searchLoop b sp obj (memOn c) (memOn c).nIter 0 d _ = .error e := h1
+    have h2' : searchLoop b sp obj (memOff c) (memOff c).nIter 0 d _ = .error e := h2
+    rw [h1', h2']; exact ⟨e, rfl, rfl⟩
+  · have h1' : searchLoop b sp obj (memOn c) (memOn c).nIter 0 d _ = .ok (d1', cs1', k) := h1
+    have h2' : searchLoop b sp obj (memOff c) (memOff c).nIter 0 d _ = .ok (d2', cs2', k) := h2
+    rw [h1', h2']
+    simp only
+    obtain ⟨_, hrows, hposL, hscoreL, hnit, hnitr, _, _, hbst⟩ := projD_fields S1.d
+    obtain ⟨hpb, _⟩ := projC_fields S1.cs
+    unfold finishSearch
+    simp only [bind, Except.bind, pure, Except.pure]
+    rw [← hpb]
+    cases hp : cs1'.pbar.posBest with
+    | none =>
+      right
+      exact ⟨_, _, _, _, rfl, rfl, hrows, hposL, hscoreL, hbst, hnit, hnitr, rfl, rfl, rfl, rfl, rfl⟩
+    | some p =>
+      simp only
+      cases hv : position2value sp.dims p with
+      | error e => left; exact ⟨e, rfl, rfl⟩
+      | ok v =>
+        right
+        exact ⟨_, _, _, _, rfl, rfl, hrows, hposL, hscoreL, hbst, hnit, hnitr, rfl, rfl, rfl, rfl, rfl⟩
 
 /-! ### shared manager dict: all interleavings -/
 
